@@ -235,6 +235,11 @@ func (d c07) Execute(c *core.Case) *core.Result {
 	w := world.NewWithKeys([]int{0, 1, 2, outsiderKey})
 	w.Env.RecordEvents = false
 	l := &model.Log{W: w}
+	defer func() {
+		if res.Digest == "" {
+			res.Digest = core.HashStrings(refDigest(w.St))
+		}
+	}()
 	for i := range c.Ops {
 		op := &c.Ops[i]
 		out := w.Exec(op)
